@@ -250,6 +250,55 @@ func proj6(d dhcpv6.DHCPv6) map[string]any {
 	return map[string]any{"unknown-message": true}
 }
 
+// The library has three ways in: FromBytes (any message), MessageFromBytes and RelayMessageFromBytes (the concrete types;
+// the clients use the first of the two). entryFor picks, from the input itself, whether an input is decoded through
+// FromBytes or through the concrete entry point of its own header family: the result must be the same.
+func entryFor(b []byte) string {
+	h := uint32(2166136261)
+	for _, x := range b {
+		h = (h ^ uint32(x)) * 16777619
+	}
+	if len(b) == 0 || h>>7%3 != 0 {
+		return "any"
+	}
+	if b[0] == 12 || b[0] == 13 {
+		return "relay"
+	}
+	return "msg"
+}
+
+func decodeVia(in []byte, ep string) (dhcpv6.DHCPv6, error) {
+	switch ep {
+	case "msg":
+		m, err := dhcpv6.MessageFromBytes(in)
+		if err != nil {
+			return nil, err
+		}
+		return m, nil
+	case "relay":
+		r, err := dhcpv6.RelayMessageFromBytes(in)
+		if err != nil {
+			return nil, err
+		}
+		return r, nil
+	}
+	return dhcpv6.FromBytes(in)
+}
+
+// dec6e: an input through a named concrete entry point (the wrong one for its header family must refuse it)
+func dec6e(b []byte, ep string) (out map[string]any) {
+	defer func() {
+		if r := recover(); r != nil {
+			out = map[string]any{"panic": fmt.Sprint(r)}
+		}
+	}()
+	d, err := decodeVia(append([]byte(nil), b...), ep)
+	if err != nil {
+		return map[string]any{"ok": false}
+	}
+	return map[string]any{"ok": true, "val": proj6(d)}
+}
+
 func dec6(b []byte) (out map[string]any, d dhcpv6.DHCPv6) {
 	defer func() {
 		if r := recover(); r != nil {
@@ -258,7 +307,7 @@ func dec6(b []byte) (out map[string]any, d dhcpv6.DHCPv6) {
 		}
 	}()
 	in := append([]byte(nil), b...)
-	d, err := dhcpv6.FromBytes(in)
+	d, err := decodeVia(in, entryFor(b))
 	if err != nil {
 		return map[string]any{"ok": false}, nil
 	}
